@@ -19,4 +19,7 @@ def instances():
         out.append(Inst(id="c12.literal.%s" % (pat or "empty"), props=["C12", "C10"], harness="h_c12.cpp", entry="c12_literal", tus=["blocc/value.cpp", "blocc/exception_runtime.cpp"],
                         defs=['VX_PAT="%s"' % pat], stubs=FMT_STUBS + CONTAINER_STUBS + ["_ZN4bloc5Value6_clearEv"][:0], unwind=len(pat) * 2 + 4, timeout=600, tier="quick" if len(pat) <= 2 else "thorough",
                         bounds="strings of %d bytes with escape pattern %s (P plain, E one of the 8 escaped characters)" % (len(pat), pat or "-"), inputs="the bytes"))
+    for n in (1, 2, 3, 4, 5):
+        out.append(Inst(id="c10.b64.%d" % n, props=["C10", "C01"], harness="h_b64.cpp", entry="c10_b64", tus=["blocc/builtin/base64.cpp"], defs=["VX_LEN=%d" % n],
+                        unwind=8, timeout=600, tier="quick" if n <= 3 else "thorough", bounds="every byte string of %d bytes" % n, inputs="the bytes"))
     return out
